@@ -21,6 +21,7 @@ func Normalize(p *core.Program) {
 	curProg = p
 	normalizeMonitors(p)
 	normalizeConstReceivers(p)
+	normalizeLocalArrays(p)
 	for _, fi := range p.Funcs {
 		if fi.Decl.Body == nil {
 			continue
